@@ -702,6 +702,9 @@ func (peer *peer) handleUpdate(e *fsmMsg) ([]*table.Path, []bgp.Family, bool) {
 
 				if hasOwnASLoop(localAS, allowOwnAS, aspath, confedID, confedEnabled) {
 					path.SetRejected(true)
+					// the rejected route replaces what the peer announced for
+					// this prefix before: withdraw that
+					paths = append(paths, path.Clone(true))
 					continue
 				}
 			}
@@ -719,6 +722,7 @@ func (peer *peer) handleUpdate(e *fsmMsg) ([]*table.Path, []bgp.Family, bool) {
 						slog.String("Data", path.String()))
 
 					path.SetRejected(true)
+					paths = append(paths, path.Clone(true))
 					continue
 				}
 			}
